@@ -223,6 +223,19 @@ def check_packet(ctx, rng, is_data, kind, content_len, mut_budget):
             for lab, repl in (('drop-sig-value', b''), ('empty-sig-value', rc.enc_tlv(t_, b'')), ('short-sig-value', rc.enc_tlv(t_, b0[vs_:ve_ - 1] if ve_ > vs_ else b'\x00')),
                               ('zero-padded-sig-value', rc.enc_tlv(t_, b0[vs_:ve_] + b'\x00' * rng.choice([1, 2, 8]))), ('ff-padded-sig-value', rc.enc_tlv(t_, b0[vs_:ve_] + b'\xff'))):
                 muts.append((lab, rc.enc_tlv(6 if is_data else 5, head + repl + tail)))
+            if kind.startswith('ecdsa'):
+                # the same (r, s) written in another form than the DER SEQUENCE the format prescribes: fixed-width r||s (IEEE P1363),
+                # BER with a long-form length, an INTEGER with a superfluous leading zero - all are other signature values
+                r_, s_ = der_rs(b0[vs_:ve_])
+                width = {'ecdsa256': 32, 'ecdsa384': 48, 'ecdsa521': 66}.get(kind, 32)
+                der_body = b0[vs_ + 2:ve_] if b0[vs_ + 1] < 0x80 else b0[vs_ + 3:ve_]
+                pad_r = b'\x02' + bytes([len(int_octets(r_)) + 1]) + b'\x00' + int_octets(r_) + b'\x02' + bytes([len(int_octets(s_))]) + int_octets(s_)
+                for lab, val in (('raw-rs-sig-value', r_.to_bytes(width, 'big') + s_.to_bytes(width, 'big')),
+                                 ('ber-longform-sig-value', b'\x30\x81' + bytes([len(der_body)]) + der_body if len(der_body) < 0x80 else None),
+                                 ('der-padded-integer-sig-value', b'\x30' + (bytes([len(pad_r)]) if len(pad_r) < 0x80 else b'\x81' + bytes([len(pad_r)])) + pad_r)):
+                    if val is not None:
+                        muts.append((lab, rc.enc_tlv(6 if is_data else 5, head + rc.enc_tlv(t_, val) + tail)))
+                        ctx.event('ecdsa-signature-reencoded')
     except (rc.Reject, KeyError):
         pass
     # the SignatureInfo gains / loses / changes its KeyLocator (a known, correctly placed optional element inside the signed portion);
@@ -354,6 +367,24 @@ def check_packet(ctx, rng, is_data, kind, content_len, mut_budget):
             if unchanged and not ok and mref['name'] is not None:
                 ctx.event('unsigned-part-mutant-rejected')   # allowed either way
     ctx.case(('pkt', 'D' if is_data else 'I', kind, c01_len(len(wire))), sample=w if ctx.evaluations < 4000 and rng.random() < 0.2 else None)
+
+
+def int_octets(v):
+    """DER INTEGER content octets of a non-negative integer (minimal, with the sign octet where needed)"""
+    b = v.to_bytes((v.bit_length() + 8) // 8, 'big')
+    return b
+
+
+def der_rs(sig):
+    """(r, s) of a DER ECDSA-Sig-Value (SEQUENCE of two INTEGERs)"""
+    pos = 2 if sig[1] < 0x80 else 2 + (sig[1] & 0x7f)
+    out = []
+    for _ in range(2):
+        assert sig[pos] == 2
+        ln = sig[pos + 1]
+        out.append(int.from_bytes(sig[pos + 2:pos + 2 + ln], 'big'))
+        pos += 2 + ln
+    return out[0], out[1]
 
 
 def c01_len(n):
